@@ -562,3 +562,8 @@ package unmarshal
 //@ func (*datadogMetricsRequestDec).DecodeSeriesItem [C03]
 //@   flag checks=-slice
 //@   ensures metric-key-keeps-labels: key == "metric" ==> len(d.Labels) == old(len(d.Labels)) + 1 && d.Labels[old(len(d.Labels))][0] == "__name__" && (forall i int :: 0 <= i && i < old(len(d.Labels)) ==> d.Labels[i] == old(d.Labels[i]))
+
+// Do hands the response channel to its caller, who is its only reader: whatever is sent on
+// it is sent from another goroutine, never by Do itself before it has returned the channel.
+//@ func (*parserDoer).Do [C05]
+//@   at chan.send no-send-before-the-reader-has-the-channel: false
